@@ -441,10 +441,10 @@ PROMOTED = {}
 def parse_promoted(text):
     """`const <path>::<fn>::promoted[N]: T = { ... _1 = RHS; _0 = &_1; ...}` -> {'<fn>::promoted[N]': 'RHS'}"""
     out = {}
-    for m in re.finditer(r"^const (.+?)::promoted\[(\d+)\]: ([^=]+) = \{\n(.*?)^\}", text, flags=re.M | re.S):
+    for m in re.finditer(r"^const ([^\n]+?)::promoted\[(\d+)\]: ([^=\n]+) = \{\n(.*?)^\}", text, flags=re.M | re.S):
         fnname = m.group(1).split("::")[-1]
         body = m.group(4)
-        mm = re.search(r"_1 = (.*);", body)
+        mm = re.search(r"_1 = (.*?)(?: -> \[.*\])?;", body)
         out["%s::promoted[%s]" % (fnname, m.group(2))] = mm.group(1).strip() if mm else None
     return out
 
